@@ -200,7 +200,10 @@ def run_case(case, ctx):
         ctx.check("c12.not-lower-than-start", ll_fit >= ll_start - slack, f"{fam}: log-likelihood after MLE fitting is lower than at the start values", mech, ll_fit=ll_fit, ll_start=ll_start, start=st1, fitted=th1, **info)
     else:
         ctx.count("c12.start-inadmissible-for-data")
-    ctx.check("c12.not-lower-than-generating", ll_fit >= ll_gen - slack, f"{fam}: log-likelihood after MLE fitting is lower than under the generating parameters", mech, ll_fit=ll_fit, ll_generating=ll_gen, fitted=th1, start=st1, **info)
+    mech_g = mech
+    if mech_g is None and not (ll_fit >= ll_gen - slack):
+        mech_g = _weibull3_mech(fam, [(x, th1)], slack)
+    ctx.check("c12.not-lower-than-generating", ll_fit >= ll_gen - slack, f"{fam}: log-likelihood after MLE fitting is lower than under the generating parameters", mech_g, ll_fit=ll_fit, ll_generating=ll_gen, fitted=th1, start=st1, **info)
 
     # ---- scale equivariance ------------------------------------------
     if fam == "vonmises":
@@ -228,7 +231,7 @@ def run_case(case, ctx):
         "c12.equivariant-likelihood",
         a <= tau and b <= tau,
         f"{fam}: MLE is not scale-equivariant (one fit is beaten by the other one rescaled)",
-        None,
+        None if (a <= tau and b <= tau) else _weibull3_mech(fam, [(x, th1), (x2, th2)], slack),
         c=cfac,
         fit_x=th1,
         fit_cx=th2,
@@ -245,4 +248,28 @@ def _lnnf_mech(fam, x, th):
         return None
     if th["mu_norm"] == np.mean(x) and th["sigma_norm"] == np.std(x, ddof=1):
         return "lnnf-mle-is-moment-estimator"
+    return None
+
+
+def _weibull3_mech(fam, fits, slack):
+    """Predicate of the known finding '3-parameter Weibull MLE stops before a stationary point':
+    the location is free and either the fitted shape is below one (the 3-parameter likelihood is unbounded
+    there, no maximiser exists) or re-fitting *started at the returned estimate* raises the log-likelihood
+    by more than the slack (the Nelder-Mead search had not converged)."""
+    if fam != "weibull":
+        return None
+    cls = S.classes()[fam]
+    for data, th in fits:
+        if float(th["beta"]) < 1.0:
+            return "weibull-3p-mle-not-converged"
+        with M.quiet():
+            d = cls(**{k: float(v) for k, v in th.items()})
+            if d.f_gamma is not None:
+                return None
+            try:
+                d.fit(data)
+            except Exception:  # noqa: BLE001
+                continue
+        if loglik(fam, data, d.parameters) - loglik(fam, data, th) > slack:
+            return "weibull-3p-mle-not-converged"
     return None
